@@ -65,6 +65,7 @@ for name, f, goals in [
     ("oneof_nested", C.oneof_nested, ("oneof_fallback", "oneof_all_failed")),
     ("oneof_chained", C.oneof_chained, ("oneof_fallback",)),
     ("oneof_with_switch", C.oneof_with_switch, ("oneof_fallback",)),
+    ("oneof_diamond", C.oneof_diamond, ("oneof_fallback",)),
     ("rec_simple", lambda: C.rec_simple(2, False, True), ("reiterated", "ref_fail_rec")),
     ("rec_two_scopes", C.rec_two_scopes, ("reiterated",)),
     ("rec_with_switch", lambda: C.rec_with_switch(1), ("reiterated",)),
@@ -159,6 +160,7 @@ for name, f, goals in [
     ("oneof_sibling", C.oneof_sibling, ("oneof_fallback",)),
     ("oneof_nested", C.oneof_nested, ("oneof_all_failed",)),
     ("oneof_shared_dep", C.oneof_shared_dep, ("ref_fail",)),
+    ("oneof_diamond", C.oneof_diamond, ("oneof_fallback", "oneof_all_failed")),
     ("switch_fall", lambda: C.switch_basic(False, True), ("ref_fail",)),
     ("rec_simple", lambda: C.rec_simple(1, False, True), ("ref_fail_rec",)),
     ("rec_in_oneof", C.rec_in_oneof, ()),
@@ -225,6 +227,7 @@ for name, f, goals in [
     ("oneof_chained", C.oneof_chained, ("oneof_fallback",)),
     ("oneof_with_switch", C.oneof_with_switch, ("oneof_fallback",)),
     ("oneof_shared_dep", C.oneof_shared_dep, ()),
+    ("oneof_diamond", C.oneof_diamond, ("oneof_fallback",)),
 ]:
     _reg("C10", name, f, _c10, goals=goals)
 
